@@ -142,6 +142,24 @@ with sctx_size (C : sctx) : nat :=
   | YLoopB _ _ c _ _ | YBlock _ c _ _ => S (sctx_size c)
   end.
 
+(* the TypeCtx at the hole, as a function *)
+Fixpoint ctx_at_e (C : ectx) (ctx : tctx) : tctx :=
+  match C with
+  | XHole => ctx
+  | XVariant _ _ c _ | XCallF c _ _ | XCallA _ _ c _ _ | XAccess c _ _ | XIndexV c _ _ | XIndexI _ c _
+  | XBinL _ c _ _ | XBinR _ _ c _ | XUni _ c _ | XIfC _ c _ _ _ _ | XCaseM c _ _ _
+  | XBlob _ _ _ c _ _ _ | XColl _ _ c _ _ => ctx_at_e c ctx
+  | XIfB _ _ _ c _ _ _ _ | XCaseB _ _ _ _ _ _ c _ _ _ _ _ | XCaseF _ _ _ c _ _ => ctx_at_s c ctx
+  | XFun _ _ _ _ c _ pure _ => ctx_at_s c (enter_fn pure ctx)
+  end
+with ctx_at_s (C : sctx) (ctx : tctx) : tctx :=
+  match C with
+  | YHole => ctx
+  | YAssignT _ c _ _ | YAssignV _ _ c _ | YDef _ _ _ _ c _ | YLoopC c _ _ | YRet c _ | YExpr c _ => ctx_at_e c ctx
+  | YLoopB _ _ c _ _ => ctx_at_s c (enter_loop ctx)
+  | YBlock _ c _ _ => ctx_at_s c ctx
+  end.
+
 (* program contexts: a hole somewhere inside the value of a top-level definition, or a top-level
    statement hole *)
 Inductive pctx :=
